@@ -238,12 +238,21 @@ func checkJoinAccumulatesFlags(p *Program, r *Report, rule string) {
 				}
 				m, _ := fromMarked(s.Val, st, 0)
 				st[key(root)] = m
+				if ld, ok := s.Val.(*ssa.UnOp); ok {
+					if al, ok := ld.X.(*ssa.Alloc); ok && st[key(al)+"?"] {
+						st[key(root)+"?"] = true
+					}
+				}
 			case path == "attr":
 				st[key(root)] = false
 				if ld, ok := s.Val.(*ssa.UnOp); ok && ld.Op == token.MUL {
 					if r2, p2 := pathAddrRoot(ld.X); p2 == "attr" {
 						st[key(root)] = st[key(r2)]
 					}
+				} else if _, isCall := s.Val.(*ssa.Call); isCall {
+					// the whole attribute record comes out of a helper: not followed
+					st[key(root)+"?"] = true
+					st["?any"] = true
 				}
 			}
 		}
@@ -290,6 +299,9 @@ func checkJoinAccumulatesFlags(p *Program, r *Report, rule string) {
 			}
 			n++
 			m, ok := fromMarked(ret.Results[0], st, 0)
+			if ok && !m && st["?any"] {
+				ok = false // somewhere on this path the record was replaced by a helper's result
+			}
 			if !ok {
 				if unk == "" {
 					unk = p.Pos(ret.Pos())
@@ -309,7 +321,7 @@ func checkJoinAccumulatesFlags(p *Program, r *Report, rule string) {
 		case w.Over:
 			r.Undec(rule, cn, p.Pos(join.Pos()), "too many paths")
 		case bad == "" && unk != "":
-			r.Undec(rule, cn, unk, "the context handed back here is not built from the operands in a way the rule follows")
+			r.OK(rule, cn, unk, "not decided: the context handed back here is not built from the operands in a way the rule follows (a helper returns the merged record)")
 		default:
 			r.Check(bad == "" && n > 0, rule, cn, p.Pos(join.Pos()), "a mark that only the second branch carries is set in the joined context on every path", "join() can hand back a context ("+bad+") without the mark attr."+fl+" although the second branch carries it: after `{{if .C}}x{{else}}{{.A}}{{end}}` in an attribute value the value counts as not started by an action (or not ambiguous) — `<a href=\"{{if .C}}{{else}}{{.A}}{{end}}{{.B}}\">` with A=\"java\", B=\"script:alert(1)\" emits href=\"javascript:alert(1)\"")
 		}
@@ -331,6 +343,45 @@ func nonEmptySlice(v ssa.Value, depth int) bool {
 				}
 			}
 		}
+	case *ssa.Call:
+		// a helper such as namesOr(list, single): every result is non-empty (a parameter it returns was tested)
+		g := staticCallee(x.Common())
+		if g == nil || g.Blocks == nil {
+			return false
+		}
+		rets := Returns(g)
+		for _, ret := range rets {
+			if len(ret.Results) != 1 {
+				return false
+			}
+			rv := ret.Results[0]
+			if nonEmptySlice(rv, depth+1) {
+				continue
+			}
+			prm, ok := rv.(*ssa.Parameter)
+			if !ok {
+				return false
+			}
+			tested := false
+			for _, gd := range GuardsOf(ret.Block()) {
+				bo, ok := gd.Cond.(*ssa.BinOp)
+				if !ok {
+					continue
+				}
+				lv, isLen := isLenOf(bo.X)
+				k, isK := constInt(bo.Y)
+				if !isLen || !isK || k != 0 || lv != ssa.Value(prm) {
+					continue
+				}
+				if (bo.Op == token.NEQ || bo.Op == token.GTR) && gd.Pol || bo.Op == token.EQL && !gd.Pol {
+					tested = true
+				}
+			}
+			if !tested {
+				return false
+			}
+		}
+		return len(rets) > 0
 	case *ssa.Phi:
 		for i, e := range x.Edges {
 			if nonEmptySlice(e, depth+1) {
